@@ -18,6 +18,7 @@
 (*   k = "NOTIF_" \o kind                                                                                     *)
 (*   err   TRUE iff an internal error was observed (traceback in a critical log / non-RPCError exception)      *)
 (*   iso, snapchg  delivery from an origin the receiver holds ISOLATED / its full status snapshot changed      *)
+(*   nonadm, procchg  process event from an origin not CHECKED / RUNNING at the receiver / process views changed *)
 (* A ghost record g is a function of the history only (GhostInit, GhostStep).                                  *)
 EXTENDS Naturals, Sequences, FiniteSets
 
@@ -211,6 +212,8 @@ ViewConsistent(g1, r) == \A n \in Inst : r.post[n].alive => \A j \in Inst : r.po
 -----------------------------------------------------------------------------
 (* C13 *)
 Airtight(r) == r.iso => ~r.snapchg
+\* process state / removal / disability events from a peer that has not passed the handshake change no process view
+OnlyAdmitted(r) == r.nonadm => ~r.procchg
 NoTraffic(r) == \A k \in DOMAIN r.push : ~r.push[k][3]
 
 -----------------------------------------------------------------------------
@@ -226,6 +229,7 @@ StepFailures(g, r) ==
      \cup (IF ViewConsistent(g1, r) THEN {} ELSE {"C07.ViewConsistent"})
      \cup (IF Airtight(r) THEN {} ELSE {"C13.Airtight"})
      \cup (IF NoTraffic(r) THEN {} ELSE {"C13.NoTraffic"})
+     \cup (IF OnlyAdmitted(r) THEN {} ELSE {"C13.OnlyAdmitted"})
      \cup (IF r.err THEN {"C16.NoInternalError"} ELSE {})
 
 -----------------------------------------------------------------------------
